@@ -116,18 +116,23 @@ class OrderedLock:
         Raises:
             OrderedLockError: When a preceding caller could not release its lock because it errored.
         """
+        event: Event | None = None
         with self._lock:
-            if self._is_broken:
-                # don't grow queue if already broken
-                msg = "Cannot acquire lock in guaranteed order because a previous lock exited with an exception."
-                raise OrderedLockError(msg, self._exception)
+            # don't grow queue if already broken
+            broken_by = self._exception if self._is_broken else None
+            if not self._is_broken:
+                event = Event()
+                self._waiters.append(event)
 
-            event = Event()
-            self._waiters.append(event)
+                if len(self._waiters) == 1:
+                    # first waiter, nothing else in queue so no need to wait
+                    event.set()
 
-            if len(self._waiters) == 1:
-                # first waiter, nothing else in queue so no need to wait
-                event.set()
+        if event is None:
+            # raised outside the internal mutex: building the error formats the stored exception,
+            # i.e. runs user code (__str__), which may use this very lock
+            msg = "Cannot acquire lock in guaranteed order because a previous lock exited with an exception."
+            raise OrderedLockError(msg, broken_by)
 
         # block until it's our turn to proceed
         event.wait()
